@@ -1,6 +1,157 @@
-(* C10 — placeholder until the proofs are in place *)
-From Tetl Require Import Lib.Base C10.Model C10.Spec.
+(* C10 — Integer <-> text conversion is exact, round-trips, and respects the buffer.
+   Property theorems only: each is closed by [exact] of a lemma proved in Proofs*.v / Digits.v /
+   Refuted.v, followed by Print Assumptions.
+   Quantification: every integer type t = (bits, signedness) with at least 8 bits (the C++ integer
+   types are the instances 8/16/32/64), every value of the type, every base 2..36, every buffer
+   (any length, any previous contents), every character sequence.  Model functions (C10.Model)
+   mirror the C++ code; Spec functions (C10.Spec) are positional notation and the
+   [charconv] / C strtol / [string.conversions] contracts. *)
+From Tetl Require Import Lib.Base C10.Model C10.Spec C10.Digits C10.ProofsFmt C10.ProofsParse
+  C10.ProofsRT C10.ProofsStrto C10.Refuted.
 Local Open Scope Z_scope.
-Example C10_nonvacuous : to_chars_m i32 (-255) 16 [0;0;0] = Ok (false, 3%nat, [45; 102; 102]).
-Proof. vm_compute. reflexivity. Qed.
-Print Assumptions C10_nonvacuous.
+
+(** ** The specification's numeral is positional notation (spec sanity) *)
+Theorem C10_spec_digits_eval : forall b n, 2 <= b -> 0 <= n -> eval b (digits b n) = n.
+Proof. exact digits_eval. Qed.
+Print Assumptions C10_spec_digits_eval.
+
+Theorem C10_spec_digits_canonical : forall b n, 2 <= b -> 0 < n -> canonical b (digits b n).
+Proof. exact digits_canonical. Qed.
+Print Assumptions C10_spec_digits_canonical.
+
+Theorem C10_spec_numeral_unique : forall b ds1 ds2, 2 <= b ->
+  canonical b ds1 -> canonical b ds2 -> eval b ds1 = eval b ds2 -> ds1 = ds2.
+Proof. exact canonical_unique. Qed.
+Print Assumptions C10_spec_numeral_unique.
+
+(** ** to_chars: exactly the specified text when it fits (rest of the buffer untouched,
+       ptr = first + length), otherwise value_too_large with ptr = last; in both cases every
+       store stayed inside [first, last) (the model's checked stores never report OutOfBounds) *)
+Theorem C10_to_chars_correct : forall t v b buf,
+  8 <= bits t -> in_ty t v = true -> 2 <= b <= 36 ->
+  match to_chars_spec b v (length buf) with
+  | Some s => to_chars_m t v b buf = Ok (false, length s, s ++ skipn (length s) buf)
+  | None => exists buf', to_chars_m t v b buf = Ok (true, length buf, buf') /\ length buf' = length buf
+  end.
+Proof. exact to_chars_correct. Qed.
+Print Assumptions C10_to_chars_correct.
+
+Theorem C10_to_chars_in_bounds : forall t v b buf,
+  8 <= bits t -> in_ty t v = true -> 2 <= b <= 36 ->
+  exists err n buf', to_chars_m t v b buf = Ok (err, n, buf') /\ length buf' = length buf /\ (n <= length buf)%nat.
+Proof. exact to_chars_in_bounds. Qed.
+Print Assumptions C10_to_chars_in_bounds.
+
+(* the etl-specific from_integer with and without terminator (exact-fit accepted, error otherwise) *)
+Theorem C10_from_integer_correct : forall t term v b buf,
+  8 <= bits t -> in_ty t v = true -> 2 <= b <= 36 ->
+  fi_post term b v buf (from_integer_m t term v b buf).
+Proof. exact from_integer_spec. Qed.
+Print Assumptions C10_from_integer_correct.
+
+(* to_string<Capacity>: the decimal text whenever it has at most Capacity characters, otherwise
+   the precondition check fires *)
+Theorem C10_to_string_correct : forall t cap v, 8 <= bits t -> in_ty t v = true ->
+  to_string_m t cap v = if (length (to_text 10 v) <=? cap)%nat then Ok (to_text 10 v) else Contract.
+Proof. exact to_string_correct. Qed.
+Print Assumptions C10_to_string_correct.
+
+(** ** to_integer: value of the longest digit run, exact overflow detection, consumed length *)
+Theorem C10_to_integer_correct : forall t skipws plus s base, 8 <= bits t -> 2 <= base <= 36 ->
+  to_integer_m t skipws plus s base = Ok (gparse t skipws plus s base).
+Proof. exact to_integer_spec. Qed.
+Print Assumptions C10_to_integer_correct.
+
+(* the two overflow checkers are exact: they fire iff the next accumulation step leaves the type *)
+Theorem C10_overflow_checker_exact : forall t base A d,
+  8 <= bits t -> 2 <= base <= 36 -> 0 <= A -> 0 <= d < base ->
+  would_overflow_m t (ck_of t base) (sig t A) d = (A * base + d >? lim t).
+Proof. exact would_overflow_spec. Qed.
+Print Assumptions C10_overflow_checker_exact.
+
+(** ** from_chars: error class, stored value and consumed length of [charconv.from.chars];
+       overflow detected exactly at the limits of the type.  Known finding: on
+       result_out_of_range ptr is first instead of the end of the digit run. *)
+Theorem C10_from_chars_correct : forall t s b v0, 8 <= bits t -> 2 <= b <= 36 ->
+  from_chars_m t s b v0 =
+    Ok (let '(c, n, v) := from_chars_spec t b s in
+        (fc_of c, match c with PRange => 0%nat | _ => n end, match v with Some x => x | None => v0 end)).
+Proof. exact from_chars_correct. Qed.
+Print Assumptions C10_from_chars_correct.
+
+Theorem C10_from_chars_exact : forall t s b v0, 8 <= bits t -> 2 <= b <= 36 ->
+  fst (fst (from_chars_spec t b s)) <> PRange ->
+  from_chars_m t s b v0 =
+    Ok (let '(c, n, v) := from_chars_spec t b s in (fc_of c, n, match v with Some x => x | None => v0 end)).
+Proof. exact from_chars_exact. Qed.
+Print Assumptions C10_from_chars_exact.
+
+Theorem C10_from_chars_overflow_ptr_refuted : exists t s b v0 r,
+  8 <= bits t /\ 2 <= b <= 36 /\ from_chars_m t s b v0 = Ok (FcRange, 0%nat, v0)
+  /\ from_chars_spec t b s = (PRange, r, None) /\ r <> 0%nat.
+Proof. exact from_chars_overflow_ptr_refuted. Qed.
+Print Assumptions C10_from_chars_overflow_ptr_refuted.
+
+(** ** round trip *)
+Theorem C10_roundtrip : forall t v b buf v0,
+  8 <= bits t -> in_ty t v = true -> 2 <= b <= 36 -> (length (to_text b v) <= length buf)%nat ->
+  exists n buf', to_chars_m t v b buf = Ok (false, n, buf')
+                 /\ from_chars_m t (firstn n buf') b v0 = Ok (FcOk, n, v).
+Proof. exact roundtrip. Qed.
+Print Assumptions C10_roundtrip.
+
+Theorem C10_spec_roundtrip : forall t v b, in_ty t v = true -> 2 <= b <= 36 ->
+  from_chars_spec t b (to_text b v) = (POk, length (to_text b v), Some v).
+Proof. exact spec_roundtrip. Qed.
+Print Assumptions C10_spec_roundtrip.
+
+(** ** strtol strtoll strtoul strtoull: the C contract outside the recorded defect regions *)
+Theorem C10_strto_correct : forall t s b, 8 <= bits t -> 2 <= b <= 36 -> strto_region t b s = false ->
+  strto_m t s b = Ok (strto_spec t b s).
+Proof. exact strto_correct. Qed.
+Print Assumptions C10_strto_correct.
+
+Theorem C10_strto_base0_refuted : exists t s,
+  strto_m t s 0 = UB DivByZero /\ strto_spec t 0 s = (12, 2%nat) /\ strto_region t 0 s = true.
+Proof. exact strto_base0_refuted. Qed.
+Print Assumptions C10_strto_base0_refuted.
+
+Theorem C10_strto_hex_prefix_refuted : exists t s r,
+  strto_m t s 16 = Ok r /\ strto_spec t 16 s <> r /\ strto_region t 16 s = true.
+Proof. exact strto_hex_prefix_refuted. Qed.
+Print Assumptions C10_strto_hex_prefix_refuted.
+
+Theorem C10_strto_no_saturation_refuted : exists t s r,
+  strto_m t s 10 = Ok r /\ strto_spec t 10 s <> r /\ strto_region t 10 s = true.
+Proof. exact strto_no_saturation_refuted. Qed.
+Print Assumptions C10_strto_no_saturation_refuted.
+
+Theorem C10_strtou_minus_refuted : exists t s r,
+  sgn t = false /\ strto_m t s 10 = Ok r /\ strto_spec t 10 s <> r /\ strto_region t 10 s = true.
+Proof. exact strtou_minus_refuted. Qed.
+Print Assumptions C10_strtou_minus_refuted.
+
+(** ** stoi stol stoll stoul stoull: (value, *pos) of [string.conversions] whenever std does not throw *)
+Theorem C10_sto_correct : forall t s b r, 8 <= bits t -> 2 <= b <= 36 -> sto_region t b s = false ->
+  sto_spec t b s = Some r -> strto_m t s b = Ok r.
+Proof. exact sto_correct. Qed.
+Print Assumptions C10_sto_correct.
+
+(** ** atoi atol atoll: the value of strtol(s, NULL, 10) whenever it is representable *)
+Theorem C10_ato_correct : forall t s v, 8 <= bits t -> sgn t = true -> ato_spec t s = Some v ->
+  ato_m t s = Ok v.
+Proof. exact ato_correct. Qed.
+Print Assumptions C10_ato_correct.
+
+(** ** non-vacuity: the hypotheses are satisfiable and the conclusions are about real behaviour *)
+Example C10_nonvacuous :
+  8 <= bits i8 /\ in_ty i8 (-128) = true /\ in_ty i64 (-9223372036854775808) = true
+  /\ to_chars_m i32 (-255) 16 [0; 0; 0] = Ok (false, 3%nat, [45; 102; 102])
+  /\ to_chars_spec 16 (-255) 3 = Some [45; 102; 102] /\ to_chars_spec 16 (-255) 2 = None
+  /\ from_chars_m i8 [45; 49; 50; 56; 32] 10 7 = Ok (FcOk, 4%nat, -128)
+  /\ from_chars_m i8 [49; 50; 56] 10 7 = Ok (FcRange, 0%nat, 7)
+  /\ strto_region i64 10 [32; 43; 53; 120] = false /\ strto_m i64 [32; 43; 53; 120] 10 = Ok (5, 3%nat)
+  /\ sto_spec i32 10 [45; 52; 50] = Some (-42, 3%nat) /\ sto_region i32 10 [45; 52; 50] = false
+  /\ ato_spec i32 [52; 50; 120] = Some 42
+  /\ to_string_m i32 3 123 = Ok [49; 50; 51] /\ to_string_m i32 2 123 = Contract.
+Proof. vm_compute. repeat split; congruence. Qed.
